@@ -275,9 +275,8 @@ func c05Track(w *simWorld, sn *Snapshot, detachedSet map[string]bool) (out []Vio
 						}
 					}
 				}
-				if restored {
-					key = "tracked-permissions-diverged subscription-restored-by-partner"
-				} else if refusedP2P {
+				_ = restored // (repaired: a p2p subscription restored by the partner's {sub} is announced now)
+				if refusedP2P {
 					key = "tracked-permissions-diverged after-refused-p2p-sub"
 				} else if raced {
 					key = "tracked-permissions-diverged attach-raced-notification"
